@@ -1632,6 +1632,9 @@ Error Assembler::_emit(InstId inst_id, const Operand_& o0, const Operand_& o1, c
       opcode.add_reg(Gp::kIdZr, 0);
 
       if (isign4 == ENC_OPS2(Reg, Reg)) {
+        if (!check_signature(o0, o1))
+          goto InvalidInstruction;
+
         if (!check_gp_id(o0, o1, kZR))
           goto InvalidPhysId;
 
@@ -1639,6 +1642,9 @@ Error Assembler::_emit(InstId inst_id, const Operand_& o0, const Operand_& o1, c
       }
 
       if (isign4 == ENC_OPS3(Reg, Reg, Imm)) {
+        if (!check_signature(o0, o1))
+          goto InvalidInstruction;
+
         if (!check_gp_id(o0, o1, kZR))
           goto InvalidPhysId;
 
